@@ -79,7 +79,7 @@ func c02Op(r *core.Rng) *OpDesc {
 }
 
 var c02Gen = TreeGen{MaxDepth: 4, MaxWidth: 4, MinWidth: 0, Conds: 22, CondStackExpr: 30, CondCondExpr: 8,
-	Aliases: 0, Present: true, StackProb: 40, Leaf: c02Leaf, Ops: c02Op}
+	Aliases: 10, Present: true, StackProb: 40, Leaf: c02Leaf, Ops: c02Op}
 
 func c02Tier(tier string) (exh, random int) {
 	if tier == "thorough" {
@@ -213,9 +213,32 @@ func c02Run(c *core.Ctx, idx int) {
 	if idx%7 == 3 {
 		// an unrelated tree is built, configured and rendered in between: this one reads as before
 		other := c02Gen.Gen(core.NewRng(core.Mix(uint64(c.Seed)+0x07e4, uint64(idx))))
+		if idx%2 == 1 {
+			// both go through a reset of their encapsulation and take new pairs, this one first
+			root.SetEncap(`|`)
+			root.SetEncap()
+			root.SetEncap(`"`)
+			want, inDomain = RefRenderStack(root)
+			if g := root.String(); !inDomain || g != want {
+				if inDomain {
+					c.Violatef("encap-after-reset", tree, "after SetEncap(|), SetEncap(), SetEncap(\"): String()=%q, canonical rendering %q", g, want)
+				}
+				return
+			}
+		}
 		ow, oin := RefRenderStack(other.BuildStack())
 		var og, again string
-		if p, _, _ := Guard(func() { og = other.BuildStack().String(); again = root.String() }); !p {
+		if p, _, _ := Guard(func() {
+			ob := other.BuildStack()
+			og = ob.String()
+			ob.SetEncap()
+			ob.SetEncap([]string{"<", ">"})
+			ob.SetEncap("'")
+			_ = ob.String()
+			oc := stackage.Cond("ok", stackage.Eq, "ov").SetEncap()
+			oc.SetEncap([]string{"{", "}"})
+			again = root.String()
+		}); !p {
 			if oin && og != ow {
 				c.Violatef("other-tree:"+c02Classify(other, og, ow), other, "String()=%q, canonical rendering %q for %s", og, ow, other.Brief())
 				return
